@@ -481,3 +481,57 @@ def r09_5(ctx, repo):
                           'the model gives `%s` a rate that the '
                           'documentation does not mention' % var, engine=ENG)
     ctx.floor(rule, 5)
+
+
+def r09_6(ctx, repo):
+    """Renaming guards look at the *published* names.
+
+    `set_parameter_names` / `set_output_names` keep two tables each: the
+    immutable myokit names (`_parameter_names`, `_output_names`) and the map
+    to the names currently published (`_*_name_map`).  A clash test of a new
+    name must consult the published names (the values of the map or the
+    public getter); the two sibling setters must agree in which kind of table
+    they consult."""
+    rule = 'R09.6'
+    pairs = [('set_parameter_names', 'parameter'),
+             ('set_output_names', 'output')]
+    n = 0
+    for cls in repo.subclasses(CLS):
+        for m, kind in pairs:
+            fn = repo.cls(cls).methods.get(m)
+            if fn is None:
+                continue
+            construct = '%s.%s' % (cls, m)
+            params = [a.arg for a in fn.args.args][1:]
+            tests = []
+            for c in ast.walk(fn):
+                if isinstance(c, ast.Compare) and len(c.ops) == 1 and \
+                        isinstance(c.ops[0], (ast.In, ast.NotIn)):
+                    cont = U(c.comparators[0])
+                    if 'self.' in cont:
+                        tests.append((c, cont))
+            for c, cont in tests:
+                n += 1
+                where = repo.loc(c, cls, m)
+                published = ('_%s_name_map.values()' % kind in cont
+                             or cont.replace(' ', '') in (
+                                 'self.%ss()' % kind,
+                                 'self.%s_names()' % kind))
+                raw = 'self._%s_names' % kind in cont
+                if published:
+                    ctx.ok(rule, where, construct,
+                           'clash test consults the published %s names'
+                           % kind)
+                elif raw:
+                    ctx.violation(
+                        rule, where, construct, 'clash table',
+                        '`%s` tests the new name against `%s`, the '
+                        'immutable myokit names; after a first renaming the '
+                        'published names differ from them, so a name can be '
+                        'published twice and renaming back is refused' % (
+                            U(c)[:60], cont))
+                else:
+                    ctx.error(rule, '%s: membership test on `%s` not '
+                              'classified' % (construct, cont[:40]))
+    if n < 2:
+        ctx.error(rule, 'only %d renaming guards found (floor 2)' % n)
